@@ -6,9 +6,9 @@
 EXTENDS ModeSFrame, Json, IOUtils
 
 (* every shape with the header fields the harness varies to build context   *)
-(* pairs (ModeSFrame!CtxFields)                                             *)
+(* pairs (ModeSFrame!CtxFields) and its character areas (CharAreas)         *)
 ShapeSeq == LET S == SetToSeq(AllShapes)
-            IN [i \in 1..Len(S) |-> S[i] @@ [ctx |-> CtxFields(S[i].df)]]
+            IN [i \in 1..Len(S) |-> S[i] @@ [ctx |-> CtxFields(S[i].df), chars |-> CharAreas(S[i])]]
 
 ASSUME Written == /\ ndJsonSerialize(IOEnv.OUT, ShapeSeq)
                   /\ PrintT(<<"SHAPES", Len(ShapeSeq)>>)
